@@ -25,6 +25,10 @@ pub enum WeightRegime {
     FineDyadic,
     /// finite positive weights whose sums or products overflow: 1e308, 5e307, MAX/4, next to 1 and 1e150
     Overflowing,
+    /// unit weights with a few exceptions (2, 0.5, 3, 1.5): a history that is "all ones" for a while
+    MostlyOnes,
+    /// subnormal weights (k x 1e-310): sums stay below f64::MIN_POSITIVE, quotients by them overflow
+    Subnormal,
 }
 
 impl WeightRegime {
@@ -46,6 +50,14 @@ impl WeightRegime {
             WeightRegime::MixedScale => *rng.pick(&[1.0, 1.0000000000000002, 1.0, 2.5e-17, 5e-17, 1e-17, 16777216.0, 16777217.0, 0.5, 1.00000001]),
             WeightRegime::FineDyadic => *rng.pick(&[1.0, 1.0, 1.0, 2.0, 0.5]) + rng.below(5) as f64 * (0.5f64).powi(*rng.pick(&[41, 41, 40, 38, 35])),
             WeightRegime::Overflowing => *rng.pick(&[1e308, 5e307, f64::MAX / 4.0, 1e308, 1.0, 1e150, 1e160]),
+            WeightRegime::MostlyOnes => {
+                if rng.chance(17, 20) {
+                    1.0
+                } else {
+                    *rng.pick(&[2.0, 0.5, 3.0, 1.5])
+                }
+            }
+            WeightRegime::Subnormal => (1 + rng.below(32)) as f64 * 1e-310,
             WeightRegime::Extreme => *rng.pick(&[1e308, f64::MAX / 4.0, f64::INFINITY, 1.0, 1e-308, f64::MAX]),
             WeightRegime::Mixed => {
                 if rng.chance(1, 3) {
@@ -537,6 +549,7 @@ fn load_sparse(rng: &mut Rng, specs: Specs, regime: WeightRegime, variant: u8) -
     let n = match variant {
         1 => rng.range(2048, 2600),
         2 => rng.range(1100, 1600),
+        4 => rng.range(10_001, 13_000),
         _ => rng.range(4100, 4500),
     };
     let mut names: Vec<String> = (0..n).map(|i| format!("{}{}", ["s", "S", "t", "x"][i % 4], i)).collect();
@@ -554,7 +567,7 @@ fn load_sparse(rng: &mut Rng, specs: Specs, regime: WeightRegime, variant: u8) -
     let mut ops = vec![Op::AddNodes(decl)];
     let hub = rng.below(n);
     let mut pairs: Vec<(usize, usize)> = vec![];
-    if variant >= 2 {
+    if variant == 2 || variant == 3 {
         for v in 0..n {
             if v != hub && rng.chance(97, 100) {
                 pairs.push(if rng.chance(1, 2) { (hub, v) } else { (v, hub) });
@@ -572,6 +585,27 @@ fn load_sparse(rng: &mut Rng, specs: Specs, regime: WeightRegime, variant: u8) -
             pairs.push((u, v));
         }
     }
+    if specs.multi && !pairs.is_empty() {
+        // parallel edges: a few small groups, and (half of the time) one group of more than 1 024 on one pair
+        for _ in 0..rng.range(2, 12) {
+            let p = *rng.pick(&pairs);
+            for _ in 0..rng.range(1, 4) {
+                pairs.push(if !specs.directed && rng.chance(1, 2) { (p.1, p.0) } else { p });
+            }
+        }
+        if rng.chance(1, 2) {
+            let p = *rng.pick(&pairs);
+            for _ in 0..rng.range(1030, 1500) {
+                pairs.push(p);
+            }
+        }
+        if specs.self_loops {
+            let u = rng.below(n);
+            for _ in 0..rng.range(1, 3) {
+                pairs.push((u, u));
+            }
+        }
+    }
     rng.shuffle(&mut pairs);
     let mut tok = 0u32;
     let mut mk = |rng: &mut Rng, u: usize, v: usize, names: &Vec<String>| {
@@ -584,7 +618,7 @@ fn load_sparse(rng: &mut Rng, specs: Specs, regime: WeightRegime, variant: u8) -
     if !distinct_only && !pairs.is_empty() {
         // second edges on pairs of the hub (and a few others), in either orientation, in a later call: the
         // adjacency lists are not in position order by then
-        let hub_pairs: Vec<(usize, usize)> = pairs.iter().filter(|p| variant >= 2 && (p.0 == hub || p.1 == hub)).copied().collect();
+        let hub_pairs: Vec<(usize, usize)> = pairs.iter().filter(|p| (variant == 2 || variant == 3) && (p.0 == hub || p.1 == hub)).copied().collect();
         let mut second: Vec<E> = vec![];
         for _ in 0..rng.range(3, 40) {
             let p = if !hub_pairs.is_empty() && rng.chance(3, 4) { *rng.pick(&hub_pairs) } else { *rng.pick(&pairs) };
@@ -652,7 +686,8 @@ fn failing_load(rng: &mut Rng, specs: Specs, regime: WeightRegime) -> Option<Op>
 }
 
 /// `variants`: 0 = dense (45-180 nodes, 2 100 - 12 500 edges), 1 = many nodes (2 048 - 2 600 declared in one call,
-/// a few names repeated), 2 = a hub with 1 100 - 1 600 neighbours, 3 = a hub with 4 100 - 4 500 neighbours
+/// a few names repeated), 2 = a hub with 1 100 - 1 600 neighbours, 3 = a hub with 4 100 - 4 500 neighbours,
+/// 4 = 10 001 - 13 000 nodes; multi-edge graphs get groups of parallel edges, one of them of more than 1 024
 pub fn gen_huge_history_v(rng: &mut Rng, specs: Specs, regime: WeightRegime, derived: bool, variants: &[u8]) -> Vec<Op> {
     let variant = *rng.pick(variants);
     let mut pre: Vec<Op> = vec![];
@@ -708,6 +743,66 @@ pub fn gen_huge_history_v(rng: &mut Rng, specs: Specs, regime: WeightRegime, der
         ops.push(op);
     }
     ops
+}
+
+/// Tens of thousands of nodes (47 000 - 70 000: above 2^15.5 and around 2^16): a source joined to every other node
+/// (a fringe of more than 65 536 open entries), a sparse second level that shortens some of those entries, a chain,
+/// two diamonds (ties) and isolated nodes. Dyadic weights, so every sum is exact.
+pub fn gen_giant_graph(rng: &mut Rng, directed: bool) -> (Specs, Vec<Op>) {
+    let specs = Specs::kind(directed, false, false);
+    let n = *rng.pick(&[47_000usize, 52_000, 65_600, 66_500, 70_000]);
+    let names: Vec<String> = (0..n).map(|i| format!("g{}", i)).collect();
+    let isolated = rng.range(5, 400);
+    let leaves = n - isolated - 12;
+    let mut es: Vec<(usize, usize, f64)> = vec![];
+    // node 0 is the source; leaves 1..=leaves
+    for v in 1..=leaves {
+        es.push((0, v, 10.0 + rng.below(64_000) as f64 / 64.0));
+    }
+    // second level: a near leaf shortens a far one by a little or by a lot
+    for _ in 0..leaves / 8 {
+        let (u, v) = (1 + rng.below(leaves), 1 + rng.below(leaves));
+        if u != v {
+            es.push((u, v, *rng.pick(&[1.0 / 256.0, 0.25, 1.0, 7.5, 300.0])));
+        }
+    }
+    // entries that are improved by very little: in the order of their length, a leaf leads to the next longer one
+    // by an edge that is 1/256 shorter than the difference
+    {
+        let mut by_len: Vec<(u64, usize)> = es.iter().filter(|e| e.0 == 0).map(|e| ((e.2 * 256.0) as u64, e.1)).collect();
+        by_len.sort();
+        for w in by_len.windows(2).step_by(rng.range(5, 12)) {
+            let diff = w[1].0 - w[0].0;
+            if diff >= 2 {
+                es.push((w[0].1, w[1].1, (diff - 1) as f64 / 256.0));
+            }
+        }
+    }
+    // a chain and two diamonds behind the last leaf
+    let base = leaves + 1;
+    es.push((leaves, base, 1.0));
+    for i in 0..4 {
+        es.push((base + i, base + i + 1, 0.5));
+    }
+    let d = base + 5;
+    es.push((base + 4, d, 1.0));
+    es.push((d, d + 1, 1.0));
+    es.push((d, d + 2, 1.0));
+    es.push((d + 1, d + 3, 1.0));
+    es.push((d + 2, d + 3, 1.0));
+    es.push((d + 3, d + 4, 2.0));
+    es.push((d + 3, d + 5, 2.0));
+    es.push((d + 4, d + 6, 2.0));
+    es.push((d + 5, d + 6, 2.0));
+    let mut seen = std::collections::BTreeSet::new();
+    es.retain(|&(u, v, _)| seen.insert(if directed || u <= v { (u, v) } else { (v, u) }));
+    rng.shuffle(&mut es);
+    let mut ops = vec![Op::AddNodes(names.iter().map(|s| (s.clone(), None)).collect())];
+    let edges: Vec<E> = es.iter().map(|&(u, v, w)| E { u: names[u].clone(), v: names[v].clone(), w: wbits(w), attr: None }).collect();
+    for c in edges.chunks(4000) {
+        ops.push(Op::AddEdges(c.to_vec()));
+    }
+    (specs, ops)
 }
 
 /// A graph of 4 150 - 4 600 nodes in which one hub is adjacent to more than 4 096 of them; sparse otherwise, with a
@@ -781,7 +876,7 @@ pub fn gen_hub_graph(rng: &mut Rng, directed: bool, multi: bool, self_loops: boo
 /// A dense graph (one to three dense blocks) with 8 200 - 12 500 stored edges, or 2 100 - 5 000.
 pub fn gen_dense_graph(rng: &mut Rng, directed: bool, multi: bool, self_loops: bool, regime: WeightRegime) -> (Specs, Vec<Op>) {
     let specs = Specs::kind(directed, multi, self_loops);
-    let m_target = *rng.pick(&[2100usize, 4200, 8300, 8300, 9000, 10500, 12500]);
+    let m_target = *rng.pick(&[1100usize, 1100, 2100, 4200, 8300, 8300, 9000, 10500, 12500, 17000]);
     let k = *rng.pick(&[1usize, 1, 2, 3]);
     let cap = |b: usize| if directed { b * (b - 1) } else { b * (b - 1) / 2 };
     let mut b = 20;
@@ -826,6 +921,20 @@ pub fn gen_dense_graph(rng: &mut Rng, directed: bool, multi: bool, self_loops: b
     let es: Vec<E> = pairs.iter().map(|&(u, v)| E { u: names[u].clone(), v: names[v].clone(), w: wbits(regime.draw(rng)), attr: None }).collect();
     for c in es.chunks(500) {
         ops.push(Op::AddEdges(c.to_vec()));
+    }
+    // the last operations change the weight of pairs that already exist (replacement under KeepLast, a lighter or
+    // heavier parallel edge on a multi-edge graph): counts stay the same, extreme weights move
+    let mut specs = specs;
+    if !multi {
+        specs.dedupe = Dedupe::KeepLast;
+    }
+    if !es.is_empty() && rng.chance(2, 3) {
+        for _ in 0..rng.range(1, 3) {
+            let e = rng.pick(&es).clone();
+            let w = f64::from_bits(e.w);
+            let w2 = if w.is_nan() { w } else if rng.chance(1, 2) { w * 4.0 } else { w / 4.0 };
+            ops.push(Op::AddEdge(E { u: e.u.clone(), v: e.v.clone(), w: wbits(w2), attr: None }));
+        }
     }
     (specs, ops)
 }
